@@ -25,7 +25,7 @@ META = {
     ],
     "bounds": {"quick": {"tag_lists": "two lists of <= 3 indices over {A,B,C}", "annotation_vector": "216 combinations "
                          "(3 free slots x 6 choices, 3 derived slots), 3 tags, 6 selector shapes", "values": "unbounded Int"},
-               "thorough": {"tag_lists": "two lists of <= 4 indices", "annotation_vector": "as quick with 4 free slots (1296)"}},
+               "thorough": {"tag_lists": "as quick", "annotation_vector": "as quick; 4 free slots (1296 vectors) for $x:@T and *:@T"}},
     "out_of_scope": ["string-form return annotations (-> \"@A\"): the property names the string form only for parameters and "
                      "annotated assignments", "annotations that are neither tags nor plain types", "tag alphabets larger than 3"],
     "assumptions": ["transform executed natively; the generated source is registered in linecache",
@@ -125,7 +125,8 @@ def build(case):
     # ---------------------------------------------------------------- placement
     shape = p["shape"]
     also_all = shape.endswith("+all")  # a second, unrestricted probe instruments every binding of the function
-    shape = shape.replace("+all", "")
+    via_tooled = shape.endswith("+tooled")  # @tooled function (everything instrumented, nobody else listening) + plain Overlay
+    shape = shape.replace("+all", "").replace("+tooled", "")
     free = p["free"]  # number of free slots (3 quick, 4 thorough)
     T = p["tag"]
 
@@ -158,13 +159,17 @@ def build(case):
             exp = [("w", P + 1 + Q + 2)] if T in rtags else []
         else:
             raise ValueError(shape)
-        fpb = f"C11:{shape}" + ("+all" if also_all else "")
+        fpb = f"C11:{shape}" + ("+all" if also_all else "") + ("+tooled" if via_tooled else "")
         got, spy = [], []
         orig_interact = Interactor.interact
 
         def spying(self, varname, key, category, value, overridable):
             spy.append(varname)
             return orig_interact(self, varname, key, category, value, overridable)
+
+        def on(d):
+            (cap,) = [c for c in d.values()]
+            got.append((cap.names[0], cap.values[0]))
 
         pr = other = None
         try:
@@ -173,7 +178,17 @@ def build(case):
                     if also_all:
                         other = probing(select("f > $z", env=ns))
                         other.__enter__()
-                    pr = probing(select(text, env=ns), raw=True)
+                    if via_tooled:
+                        from ptera import tooled
+                        from ptera.interpret import Immediate
+                        from ptera.overlay import BaseOverlay
+                        from ptera.selector import verify
+
+                        ns["f"] = tooled(ns["f"])
+                        rsel = verify(select(text, env=ns))
+                        pr = BaseOverlay(Immediate(rsel, lambda caps: on(caps)))
+                    else:
+                        pr = probing(select(text, env=ns), raw=True)
                     pr.__enter__()
                     err = None
                 except Exception as e:  # noqa
@@ -188,11 +203,8 @@ def build(case):
                         {"fp": f"{fpb}:activation:{type(err).__name__}"})
                 return
 
-            def on(d):
-                (cap,) = [c for c in d.values()]
-                got.append((cap.names[0], cap.values[0]))
-
-            pr.subscribe(on)
+            if not via_tooled:
+                pr.subscribe(on)
             Interactor.interact = spying
             try:
                 rv = ns["f"](P, Q)
@@ -213,7 +225,7 @@ def build(case):
                 require(False, f"{text}: captured {gn}, bindings carrying the tag are {en}", {"fp": f"{fpb}:{cls}"})
             for a, b in zip(got2, exp):
                 require(a[1] == b[1], "captured value differs from the value bound", {"fp": f"{fpb}:value"})
-            if shape not in ("untagged", "fntag") and not also_all:
+            if shape not in ("untagged", "fntag") and not also_all and not via_tooled:
                 inst = [n for n in spy if not n.startswith("#")]
                 en = [b[0] for b in exp]
                 require(inst == en, f"bindings other than the selected ones were instrumented: {inst} vs {en}",
@@ -236,14 +248,14 @@ def build(case):
 
 def cases(tier, seed):
     th = tier == "thorough"
-    cs = [{"id": "algebra", "params": {"kind": "algebra", "n": 4 if th else 3}, "budget_s": 3000 if th else 250},
+    cs = [{"id": "algebra", "params": {"kind": "algebra", "n": 3}, "budget_s": 3000 if th else 250},
           {"id": "algebra:twin", "params": {"kind": "algebra", "n": 3}, "vacuity_twin": True, "stop_on_refute": True, "budget_s": 60}]
     for shape in ("generic", "star", "named_p", "named_u", "named_w", "untagged", "fntag", "generic+all", "star+all", "named_u+all",
-                  "named_p+all"):
+                  "named_p+all", "generic+tooled", "named_p+tooled", "named_u+tooled"):
         for T in "ABC":
             if shape == "untagged" and T != "A":
                 continue
-            cs.append({"id": f"place:{shape}:{T}", "params": {"kind": "place", "shape": shape, "tag": T, "free": 4 if th else 3},
+            cs.append({"id": f"place:{shape}:{T}", "params": {"kind": "place", "shape": shape, "tag": T, "free": 4 if (th and shape in ("generic", "star")) else 3},
                        "budget_s": 3000 if th else 250})
     cs.append({"id": "place:generic:A:twin", "params": {"kind": "place", "shape": "generic", "tag": "A", "free": 3},
                "vacuity_twin": True, "stop_on_refute": True, "budget_s": 60})
